@@ -248,8 +248,33 @@ def search_engine_transfer(clause, budget, rng):
     return None
 
 
+def search_materialize_names(clause, budget, rng):
+    """Names of materializations: an explicit name is kept; a generated one starts with the requested prefix and two
+    generated names never coincide (prefix lengths 0..90, two engines, repeated calls)."""
+    from lsst.daf.relation import Materialization
+    engines, trees = marker_chains(2)
+    trees = [t for t in trees if isinstance(t.materialized(), Materialization) and t.materialized() is not t][:3]
+    seen = {}
+    for n in list(range(0, 91, 3)) + [57, 58, 59, 62, 63, 64]:
+        prefix = "p" * n
+        for t in trees:
+            for rep in range(2):
+                m = t.engine.materialize(t, name_prefix=prefix)
+                if not m.name.startswith(prefix):
+                    return f"materialize({t}, name_prefix={prefix!r}) is named {m.name!r}, which does not start with the prefix"
+                if m.name in seen:
+                    return f"materialize({t}, name_prefix={prefix!r}) is named {m.name!r}, the name already given to {seen[m.name]}"
+                seen[m.name] = f"an earlier materialization (prefix length {n})"
+            e = t.engine.materialize(t, name=prefix + "x")
+            if e.name != prefix + "x":
+                return f"materialize({t}, name={prefix + 'x'!r}) is named {e.name!r}"
+    return None
+
+
 def search_materialize(clause, budget, rng):
     from lsst.daf.relation import Materialization, LeafRelation, MarkerRelation
+    if "name" in clause:
+        return search_materialize_names(clause, budget, rng)
     engines, trees = marker_chains(3)
     for t in trees:
         m = t.materialized()
